@@ -441,6 +441,39 @@ def stream_paths(ctx, corpus):
 
 # --------------------------------------------------------------------------- stream: multiapp and demo static names
 
+# instance names as servers that pass the raw (or doubly encoded) request path deliver them
+ENCODED_NAMES = ['/..%2Foutside%2Fevil/service', '/..%2foutside%2fevil/service', '/%2e%2e%2Foutside%2Fevil/service', '/%2E%2E/outside/evil/service',
+                 '/..%252Foutside%252Fevil/service', '/%252e%252e%252Foutside%252Fevil/service', '/..%5Coutside%5Cevil/service', '/..%c0%afoutside%c0%afevil/x',
+                 '/mapproxy%2F..%2F..%2Foutside%2Fevil/service', '/%2Fetc%2Fpasswd/x', '/..%2F..%2F..%2Fetc%2Fpasswd%00/x', '/..%2Fprivate%2Finternal/service',
+                 '/%2e%2e/x', '/%2e/x', '/.%2e/x', '/%252e%252e/x', '/evil%2Eyaml/x', '/..%00/x', '/%00', '/..%2F', '/%2F', '/%2F%2F']
+
+
+def multiapp_handle_impl(p):
+    """run the real MultiMapProxy.handle with a loader that records the instance name it is asked for"""
+    from mapproxy.request.base import Request
+    from mapproxy.multiapp import MultiMapProxy, ConfLoader
+    asked = []
+
+    class Rec(ConfLoader):
+        def app_available(self, app_name):
+            asked.append(app_name)
+            return False
+
+        def available_apps(self):
+            return []
+
+        def needs_reload(self, app_name, timestamps):
+            return True
+
+        def app_conf(self, app_name):
+            asked.append(app_name)
+            return None
+    env = {'PATH_INFO': p, 'SCRIPT_NAME': '', 'REQUEST_METHOD': 'GET', 'SERVER_NAME': 'localhost', 'SERVER_PORT': '80', 'HTTP_HOST': 'localhost',
+           'wsgi.url_scheme': 'http', 'QUERY_STRING': ''}
+    MultiMapProxy(Rec(), list_apps=False).handle(Request(env))
+    return asked[0] if asked else None
+
+
 def stream_names(ctx, corpus):
     from mapproxy.request.base import Request
     from mapproxy.multiapp import DirectoryConfLoader
@@ -449,6 +482,7 @@ def stream_names(ctx, corpus):
     paths += ['/app/service', '/../x', '/..', '/../../etc/passwd', '//app//x', '', '/', '/app', 'app', '/./x', '/.', '/%2e%2e/x', '/a\\..\\b/x', '/a\0b/c',
               '/demo/static/site.css', '/demo/static/../../../etc/passwd', '/demo/static/..', '/demo/static/.../x', '/demo/static//etc/passwd',
               '/demo/static/%2e%2e/x', '/demo/static/.\\./x', '/demo/static/a/./b', '/demo/static/']
+    paths += ENCODED_NAMES
     for _ in range(ctx.n(300, 2500)):
         segs = [gen_text(rng, 5) if rng.random() < 0.6 else rng.choice(['app', 'demo', 'static', '..', '.', '', 'x.yaml', 'service']) for _ in range(rng.choice([1, 2, 3, 4]))]
         p = rng.choice(['/', '/', '//', '', '/demo/static/', '/demo/static/']) + '/'.join(segs)
@@ -476,6 +510,20 @@ def stream_names(ctx, corpus):
                 ctx.fail('multiapp,escapes-config-dir', 'request path %r selects the configuration file %r outside %r' % (p, fn, base), rep)
         terms.append('(0, %s, %s)' % (strlit(p), obs_lit(fo)))
         descr.append(rep)
+        # the name MultiMapProxy.handle really asks its loader for
+        o3 = call(multiapp_handle_impl, p)
+        rep3 = {'function': 'MultiMapProxy.handle -> loader.app_available(name)', 'path': p, 'path_code_points': cps(p), 'output': o3[1]}
+        ctx.case(('multiapp.handle', p), interesting(p), dict(rep3, stream='multiapp.handle'))
+        ctx.count('multiapp.handle')
+        if o3[0] != 'ok':
+            ctx.fail('multiapp,raised', 'MultiMapProxy.handle raised %s for %r' % (o3[1], p), rep3)
+        elif o3[1] is not None:
+            fn3 = DirectoryConfLoader(base).filename_from_app_name(o3[1])
+            if '\0' not in fn3 and (not below(base, fn3) or posixpath.dirname(posixpath.normpath(fn3)) != base):
+                ctx.fail('multiapp,escapes-config-dir', 'PATH_INFO %r makes MultiMapProxy look for the instance %r = configuration file %r outside %r'
+                         % (p, o3[1], fn3, base), rep3)
+        terms.append('(2, %s, %s)' % (strlit(p), obs_lit(o3)))
+        descr.append(rep3)
         if p.startswith('/demo/static/'):
             o2 = demo_static_impl(p, tdir)
             rep2 = {'function': 'DemoServer.handle static file name (os.path.isfile argument)', 'path': p, 'path_code_points': cps(p), 'output': o2[1]}
@@ -486,6 +534,7 @@ def stream_names(ctx, corpus):
             terms.append('(1, %s, %s)' % (strlit(p), obs_lit(o2)))
             descr.append(rep2)
     checker = ("fun c => let '(kind, p, out) := c in if kind =? 0 then opt_eqb str_eqb (Some (app_filename %s (pop_path p))) out "
+               "else if kind =? 2 then opt_eqb str_eqb (match pop_path p with [] => None | n => Some n end) out "
                "else opt_eqb str_eqb (demo_static_filename %s p) out" % (strlit(base), strlit(tdir)))
     ctx.corr_check('names', MODEL, 'Z * str * option str', terms, checker, lambda i: descr[i])
 
@@ -778,15 +827,16 @@ def wsgi_get(app, path, query='', headers=None):
     try:
         it = app(env, start_response)
         try:
-            n = 0
+            body = []
             for chunk in it:
-                n += len(chunk)
+                if sum(len(b) for b in body) < 4000000:
+                    body.append(bytes(chunk))
         finally:
             if hasattr(it, 'close'):
                 it.close()
-        return (status[0] or '')[:3], n
+        return (status[0] or '')[:3], b''.join(body)
     except Exception as e:  # noqa: the application let an exception escape (a WSGI server would answer 500)
-        return 'exc:' + type(e).__name__ + ':' + str(e)[:60], 0
+        return 'exc:' + type(e).__name__ + ':' + str(e)[:60], b''
 
 
 WORLD = 20037508.342789244
@@ -909,11 +959,74 @@ def gen_requests(ctx, corpus):
     return reqs
 
 
+PLANT_RGB = (7, 77, 177)
+
+
+def wms_getmap(layer, dims, z, x, y, extra=()):
+    q = [('SERVICE', 'WMS'), ('VERSION', '1.1.1'), ('REQUEST', 'GetMap'), ('LAYERS', layer), ('STYLES', ''), ('SRS', 'EPSG:3857'),
+         ('BBOX', ','.join(repr(v) for v in tile_bbox(z, x, y))), ('WIDTH', '256'), ('HEIGHT', '256'), ('FORMAT', 'image/png')]
+    return ('wms', '/service', q + list(dims) + list(extra), {}, layer)
+
+
+def gen_sequences(ctx, cache_dirs, root, under):
+    """Multi-step request sequences per file-cache layer: a benign dimension value first (so that its directory exists), then
+    hostile values derived from it with /../ suffixes (plain, percent-encoded, with a '.' segment, with backslashes).  A tile-shaped
+    file of a distinctive colour is planted wherever such a value - taken verbatim or percent-decoded once or twice - would point
+    outside the cache directory: a look-up that does not go through the escaped name finds it."""
+    from io import BytesIO
+    from urllib.parse import unquote
+    from PIL import Image
+    from mapproxy.cache import path as mpath
+    from mapproxy.cache.tile import Tile
+    b = BytesIO()
+    Image.new('RGB', (256, 256), PLANT_RGB).save(b, 'PNG')
+    png = b.getvalue()
+    outside = os.path.join(root, 'outside')
+    reqs = []
+    nplanted = 0
+    for cname in ('c_tc', 'c_mp', 'c_tms', 'c_rtms', 'c_link'):
+        cdir, layout = cache_dirs[cname]
+        layer = 'l_' + cname[2:]
+        fn = getattr(mpath, LAYOUT_FN[layout])
+        for key, benign in (('TIME', '2020'), ('DIM_X', 'a'), ('ELEVATION', TIMES[0])):
+            tag = '%s_%s' % (cname, key.lower())
+            up = '/..' * 3     # <cache_dir>/<key>-<benign>/../../.. is the directory above cache_data
+            hostile = [benign + up + '/outside/planted/' + tag,
+                       benign + up.replace('/', '%2F') + '%2Foutside%2Fplanted%2F' + tag + 'e',
+                       benign + '/./' + '../' * 3 + 'outside/planted/' + tag + 'd',
+                       benign + up.replace('/', '\\') + '\\outside\\planted\\' + tag + 'b']
+            planted = []
+            for h in hostile:
+                for cand in sorted({h, unquote(h), unquote(unquote(h)), h.replace('\\', '/')}):
+                    naive = os.path.join(cdir, key.lower() + '-' + cand)
+                    for coord in [(0, 0, 0), (0, 0, 1), (1, 0, 1), (0, 1, 1), (1, 1, 1)]:
+                        try:
+                            t = os.path.normpath(fn(Tile(coord), naive, 'png'))
+                        except Exception:  # noqa
+                            continue
+                        if under(t, outside) and not os.path.exists(t):
+                            os.makedirs(os.path.dirname(t), exist_ok=True)
+                            with open(t, 'wb') as f:
+                                f.write(png)
+                            planted.append(os.path.relpath(t, root))
+                            nplanted += 1
+            steps = [[(key, benign)]] + [[(key, h)] for h in hostile]
+            done = []
+            for dims in steps:
+                r = wms_getmap(layer, dims, 1, 0, 0)
+                reqs.append(r + ({'preceded_by': list(done), 'planted_tile_files_outside_cache_dir': planted[:6]},))
+                done.append('/service?' + '&'.join('%s=%s' % kv for kv in r[2]))
+    ctx.count('wsgi planted tile files', nplanted)
+    return reqs
+
+
 def gen_multiapp_requests(ctx):
     rng = ctx.rng
     out = [('/mapproxy/service', [('SERVICE', 'WMS'), ('REQUEST', 'GetCapabilities')]), ('/', []), ('/../outside/evil/service', []), ('/..', []),
            ('/outside/evil/service', []), ('//../outside/evil', []), ('/..\\outside\\evil/x', []), ('/mapproxy/../outside/evil/', []),
            ('/evil/service', []), ('/mapproxy.yaml/x', []), ('/./mapproxy/x', []), ('/mapproxy\0/x', [])]
+    caps = [('SERVICE', 'WMS'), ('REQUEST', 'GetCapabilities')]
+    out += [(p, caps if p.endswith('/service') else []) for p in ENCODED_NAMES]
     for _ in range(ctx.n(30, 200)):
         out.append(('/' + gen_text(rng, 6) + rng.choice(['', '/service', '/demo/', '/../x']), []))
     return out
@@ -1016,15 +1129,35 @@ def _wsgi_requests(ctx, corpus, audit, conf, conf_dir, cache_dirs, judge, under,
     with FakeUpstream():
         app = make_wsgi_app(conf, reloader=False)
         mapp = multiapp.make_wsgi_app(conf_dir, allow_listing=True)
+        root = os.path.dirname(conf_dir)
         reqs = [(app, 'single') + r for r in gen_requests(ctx, corpus)]
+        reqs += [(app, 'single') + r for r in gen_sequences(ctx, cache_dirs, root, under)]
         reqs += [(mapp, 'multiapp', 'multiapp', p, q, {}, None) for p, q in gen_multiapp_requests(ctx)]
-        for the_app, which, svc, path, q, hdr, layer in reqs:
+        for r in reqs:
+            the_app, which, svc, path, q, hdr, layer = r[:7]
+            meta = r[7] if len(r) > 7 else {}
             query = urlencode(q)
             with audit.record() as rec:
-                status, size = wsgi_get(the_app, path, query, hdr)
+                status, body = wsgi_get(the_app, path, query, hdr)
             events = rec.events
             hostile = interesting(path) or any(interesting(k) or interesting(v) for k, v in q) or any(interesting(v) for v in hdr.values())
             rep = {'app': which, 'service': svc, 'PATH_INFO': path, 'query': q, 'QUERY_STRING': query, 'headers': hdr, 'status': status}
+            rep.update(meta)
+            if meta:
+                ctx.count('wsgi sequence step')
+            # content: the answer must never be the image planted outside the cache directory
+            if status == '200' and body[:4] in (b'\x89PNG', b'\xff\xd8\xff\xe0', b'\xff\xd8\xff\xdb'):
+                try:
+                    from io import BytesIO
+                    from PIL import Image
+                    img = Image.open(BytesIO(body)).convert('RGB')
+                    px = img.getpixel((img.size[0] // 2, img.size[1] // 2))
+                except Exception:  # noqa
+                    px = None
+                if px is not None and all(abs(a - b) <= 3 for a, b in zip(px, PLANT_RGB)):
+                    ctx.fail('wsgi,answer-is-a-file-from-outside-the-cache-dir',
+                             'request %s?%s is answered with the image planted outside the cache directory (after %d earlier request(s))'
+                             % (path, query[:300], len(meta.get('preceded_by', []))), rep)
             ctx.case(('wsgi', which, path, query, tuple(sorted(hdr.items()))), hostile, dict(rep, stream='wsgi', fs_events=len(events)))
             ctx.count('wsgi ' + svc)
             ctx.count('wsgi status ' + str(status)[:40])
